@@ -106,6 +106,39 @@ impl LineRow {
 //@ end
 }
 
+/// facts the std contract gives about spec_bsearch_prev (same text as the ensures of outline_bsearch_prev)
+pub open spec fn bsearch_prev_facts(u: &BsUnit, pc: u64) -> bool {
+    let pos = spec_bsearch_prev(u, pc);
+    &&& (u.lines@.len() == 0 ==> pos == 0)
+    &&& (u.lines@.len() > 0 ==> pos < u.lines@.len())
+    &&& ((exists|k: int| 0 <= k < u.lines@.len() && #[trigger] adr(u, k) == pc) ==> adr(u, pos as int) == pc)
+    &&& (!(exists|k: int| 0 <= k < u.lines@.len() && #[trigger] adr(u, k) == pc) && u.lines@.len() > 0 ==> {
+            &&& (adr(u, pos as int) < pc || pos == 0)
+            &&& forall|k: int| pos < k < u.lines@.len() ==> #[trigger] adr(u, k) > pc
+        })
+}
+
+proof fn lemma_bsearch_prev_monotone(u: &BsUnit, a: u64, b: u64)
+    requires wf_lines(u), a <= b, bsearch_prev_facts(u, a), bsearch_prev_facts(u, b),
+    ensures spec_bsearch_prev(u, a) <= spec_bsearch_prev(u, b),
+{
+    let pa = spec_bsearch_prev(u, a);
+    let pb = spec_bsearch_prev(u, b);
+    if a < b && u.lines@.len() > 0 && pa > pb {
+        // rows are sorted: adr(pb) <= adr(pa)
+        assert(adr(u, pb as int) <= adr(u, pa as int));
+        if exists|k: int| 0 <= k < u.lines@.len() && #[trigger] adr(u, k) == b {
+            // adr(pb) == b > a >= ... but adr(pa) <= a unless pa == 0 (then pa > pb impossible)
+            if exists|k: int| 0 <= k < u.lines@.len() && #[trigger] adr(u, k) == a {
+            } else {
+            }
+        } else {
+            // every row after pb is > b > a, so pa (which is > pb) has adr > a: contradiction with the facts for a
+            assert(adr(u, pa as int) > b);
+        }
+    }
+}
+
 impl<'a> PlaceDescriptor<'a> {
 //@ extract: impl From<(&'a BsUnit, usize, &LineRow)> for PlaceDescriptor<'a> / fn from
 //@   sig: pub fn from_parts(unit: &'a BsUnit, pos_in_unit: usize, line_row: &LineRow) -> (r: Self)
@@ -129,11 +162,22 @@ impl<'a> PlaceDescriptor<'a> {
 //@ end
 }
 
+/// the index std's binary_search_by_key(..).unwrap_or_else(|p| p.saturating_sub(1)) returns (it is a
+/// deterministic function of the slice and the key; which of several equal keys is hit is unspecified)
+pub uninterp spec fn spec_bsearch_prev(u: &BsUnit, pc: u64) -> usize;
+
+/// gimli::Range
+pub struct Range {
+    pub begin: u64,
+    pub end: u64,
+}
+
 impl BsUnit {
     #[verifier::external_body]
     pub fn outline_bsearch_prev(&self, pc: u64) -> (pos: usize)
         requires wf_lines(self),
         ensures
+            pos == spec_bsearch_prev(self, pc),
             // std: binary_search_by_key returns Ok(i) with key(i) == pc, or Err(i) = insertion point;
             // unwrap_or_else(|p| p.saturating_sub(1)) maps Err(i) to max(i,1)-1
             self.lines@.len() == 0 ==> pos == 0,
@@ -173,7 +217,8 @@ impl BsUnit {
 //@   ret: r
 //@   requires R_sorted: wf_lines(self)
 //@   ensures E_pc0: r.is_some() <==> self.lines@.len() > 0
-//@   ensures E_pc1: r.is_some() ==> describes(r.unwrap(), self, r.unwrap().pos_in_unit as int)
+//@   ensures E_pc1: r.is_some() ==> describes(r.unwrap(), self, r.unwrap().pos_in_unit as int) && r.unwrap().pos_in_unit == spec_bsearch_prev(self, pc.0 as u64)
+//@   ensures E_pc4: wf_lines(self) ==> bsearch_prev_facts(self, pc.0 as u64)
 //@   ensures E_pc2: r.is_some() && (exists|k: int| 0 <= k < self.lines@.len() && #[trigger] adr(self, k) <= pc.0) ==> adr(self, r.unwrap().pos_in_unit as int) <= pc.0
 //@   ensures E_pc3: r.is_some() ==> forall|k: int| 0 <= k < self.lines@.len() && #[trigger] adr(self, k) <= pc.0 ==> adr(self, k) <= adr(self, r.unwrap().pos_in_unit as int)
 //@   outline O_u64: `u64::from(pc)` => `outline_u64_from_ga(pc)`
@@ -211,6 +256,24 @@ impl BsUnit {
 //@   loop 0 invariant I_ex1: p < self.lines@.len() && adr(self, p as int) == pc
 //@   proof before `self.find_place_by_idx(p)`: assert(p > 0 ==> adr(self, p - 1) != pc);
 //@   loop 0 decreases: p
+//@ end
+
+//@ extract: impl BsUnit / fn find_lines_for_range
+//@   ret: r
+//@   requires R_sorted: wf_lines(self)
+//@   requires R_range: range.begin < range.end
+//@   ensures E_lr1: forall|i: int| 0 <= i < r@.len() ==> describes(#[trigger] r@[i], self, r@[i].pos_in_unit as int)
+//@   ensures E_lr2: forall|i: int, j: int| 0 <= i <= j < r@.len() ==> #[trigger] r@[i].pos_in_unit <= #[trigger] r@[j].pos_in_unit
+//@   ensures E_lr3: self.lines@.len() > 0 ==> r@.len() >= 2 && r@[0].pos_in_unit == spec_bsearch_prev(self, range.begin) && r@[r@.len() - 1].pos_in_unit == spec_bsearch_prev(self, if range.end == 0 { 0u64 } else { (range.end - 1) as u64 })
+//@   ensures E_lr4: self.lines@.len() > 0 ==> forall|i: int| 0 <= i < r@.len() - 1 ==> #[trigger] r@[i].pos_in_unit == r@[0].pos_in_unit + i
+//@   ensures E_lr5: self.lines@.len() == 0 ==> r@.len() == 0
+//@   outline O_ga: `GlobalAddress::from($x)` => `outline_ga_from_u64($x)`
+//@   proof before `let result_cap`: assert(end_place.pos_in_unit >= start_place.pos_in_unit) by { lemma_bsearch_prev_monotone(self, range.begin, range_end_instr); }
+//@   proof before `let result_cap`: vstd::std_specs::vec::axiom_spec_len(&self.lines);
+//@   loop 0 invariant I_lr1: result@.len() == pos - start_place_pos_in_unit && start_place_pos_in_unit + 1 <= pos && (pos <= for_end_1 || pos == start_place_pos_in_unit + 1) && for_end_1 == end_place.pos_in_unit
+//@   loop 0 decreases: for_end_1 - pos
+//@   proof before `result.push(end_place);`: assert(forall|i: int| 0 <= i < result@.len() ==> (#[trigger] result@[i]).pos_in_unit == start_place_pos_in_unit + i && start_place_pos_in_unit + i <= end_place.pos_in_unit);
+//@   loop 0 invariant I_lr2: forall|i: int| 0 <= i < result@.len() ==> describes(#[trigger] result@[i], self, start_place_pos_in_unit + i)
 //@ end
 }
 
